@@ -1000,7 +1000,7 @@ func specialize(r *rng, p *plan.Plan, focus, arm string) {
 			}
 		}
 		for i := range rp.Conns {
-			rp.Conns[i].ClientCert = []string{"", "good", "otherca", "", "otherca", "plain"}[r.intn(6)]
+			rp.Conns[i].ClientCert = []string{"", "good", "otherca", "", "otherca", "plain", "expired", "selfsigned", "notyet", "good"}[r.intn(10)]
 			if rp.Conns[i].ClientCert != "good" && r.p(0.4) {
 				rp.Conns[i].PlainAfterFail = true
 			}
@@ -1502,6 +1502,11 @@ func genC15(r *rng, p *plan.Plan) {
 		} else {
 			lastAt[key] = at
 			rp.Conns = append(rp.Conns, plan.ClientConn{Idx: ci, Server: si, Src: src, LingerUs: 8_000_000, HTTP2: srv.Proto == "https" && r.p(0.5)})
+			if srv.MultiRoutes && strings.Contains(src, ".") && r.p(0.5) {
+				// a second local address of the socket: the answer - a refusal
+				// too - has to come back from there
+				rp.Conns[len(rp.Conns)-1].AltDst = true
+			}
 			if stream && r.p(0.5) {
 				lastConn[key] = ci
 			}
